@@ -121,6 +121,15 @@ CLAIMS = {
          "source calls / connect / is_closed for share and publish over a hot source, all histories <= 4 over six cold scripts and random longer "
          "ones with three subscribers, local and _threads forms, and compares every observation with the specification (ideal machine) and the "
          "model (code as it is); the 1% of cases where they differ are the recorded finding.", "DESIGN.md section 5 C11"),
+ "C14": ("Theorems: C14_future_outcome_and_readiness (items interleaved with polls in any way, then the terminal: every earlier poll is pending, "
+         "the first later poll is ready with the documented outcome - Empty, the item, MultipleValues, the source's error), "
+         "C14_stream_yields_everything_then_ends, C14_status_flag, C14_no_lost_wakeup with C14_all_interleavings (each of the 10 interleavings of "
+         "the producer's store / wake with the waiter's check / register / re-check leaves the waiter returned or woken), and the three "
+         "refutations of the pinned code (a failed source never resolved the future, never ended the stream; wait_for_end could sleep for ever) - "
+         "all three repaired by fix: commits. Each run executes every label sequence <= 6 (thorough 8) over {items, complete, error, poll} on "
+         "to_future and to_stream and the completion-status cases with the terminal placed before / inside (through a hook) / after the waiter's "
+         "check-then-register window. PARTIAL: real two-thread schedules other than that window are sampled, not enumerated; the channel and "
+         "AtomicWaker are modelled.", "DESIGN.md section 5 C14"),
  "C13": ("Theorems: C13_no_shared_cell_in_pipeline_values (a table of every struct of /repo/src that implements Observable, with its field "
          "types, regenerated on every run: none but subjects / share / complete_status carries Rc, Arc, RefCell, Cell, Mutex or an atomic), "
          "C13_subscription_is_pure, C13_successive_subscriptions_agree, C13_nested_subscriptions_agree (with every operator's state created "
